@@ -216,7 +216,7 @@ pub fn oracle_c01(rng: &mut Rng, tier: &str) -> Report {
 /// windowed scans): implementation-only comparison, no model involved
 pub fn oracle_c02(_rng: &mut Rng, tier: &str) -> Report {
     let mut rep = Report::new();
-    let sizes: Vec<usize> = if thorough(tier) { vec![255, 256, 257, 4095, 4096, 65535, 65536, 65537, 70000, 131073] } else { vec![257, 65536, 65537, 70000] };
+    let sizes: Vec<usize> = if thorough(tier) { vec![255, 256, 257, 4095, 4096, 65535, 65536, 65537, 70000, 131073, 1_000_001] } else { vec![257, 65536, 65537, 70000] };
     for n in sizes {
         let mut t = String::with_capacity(n * 40);
         t.push_str("o.Big -> big:\n");
@@ -312,7 +312,7 @@ pub fn oracle_c02(_rng: &mut Rng, tier: &str) -> Report {
     }
     // very many distinct (obfuscated, arguments, original) triples that share obfuscated name and
     // arguments: every one is its own by-params entry, in mapper and cache alike
-    for n in if thorough(tier) { vec![70_000usize, 300_000] } else { vec![200_000usize] } {
+    for n in if thorough(tier) { vec![70_000usize, 300_000, 1_000_001] } else { vec![200_000usize] } {
         let mut t = String::with_capacity(n * 32);
         t.push_str("o.Many -> many:\n");
         for i in 0..n {
@@ -743,7 +743,7 @@ pub fn oracle_c07(rng: &mut Rng, tier: &str) -> Report {
     }
     // one frame line that expands to n frames (an n-entry inline group), with the expected output
     // constructed here, independently of crate and model: no cap, no truncation, file order
-    for n in if thorough(tier) { vec![4097usize, 70_000] } else { vec![4097usize, 20_000] } {
+    for n in if thorough(tier) { vec![4097usize, 70_000, 1_000_001] } else { vec![4097usize, 20_000] } {
         let text = crate::gens::threshold_mapping(n);
         let ms: &'static [u8] = Box::leak(text.into_boxed_slice());
         let mapper = proto::cur::mapper(ms, false);
@@ -872,6 +872,35 @@ pub fn oracle_c08(rng: &mut Rng, tier: &str) -> Report {
         }
     }
     deep_chain_oracle(&mut rep, if thorough(tier) { &[300_000, 1_000_000] } else { &[300_000] }, false);
+    // one frame that resolves to n frames (an n-entry inline group): the typed result keeps all of
+    // them, in file order — no cap (2^16+1, 10^6+1; thorough also 2^20+1)
+    for n in if thorough(tier) { vec![65_537usize, 1_000_001, 1_048_577] } else { vec![65_537usize, 1_000_001] } {
+        let text = crate::gens::threshold_mapping(n);
+        let ms: &'static [u8] = Box::leak(text.into_boxed_slice());
+        let mapper = proto::cur::mapper(ms, n % 2 == 0);
+        let cbytes = proto::aligned_static(&proto::cur::write_cache(ms));
+        let Ok(cache) = ProguardCache::parse(cbytes) else {
+            rep.fail("own output does not parse", vec![format!("# threshold mapping {}", n)], String::new());
+            continue;
+        };
+        let Some(trace) = StackTrace::try_parse(b"big: boom\n    at big.b(F.java:7)\n    at small.a(S.java:1)\n") else { continue };
+        for (who, got) in [("mapper", mapper.remap_stacktrace_typed(&trace)), ("cache", cache.remap_stacktrace_typed(&trace))] {
+            rep.checks += 1;
+            let fs = got.frames();
+            let ok = fs.len() == n + 1
+                && fs.iter().take(n).enumerate().all(|(i, f)| f.class() == "o.Big" && f.line() == i && f.method().strip_prefix("inl").map_or(false, |d| d == i.to_string()))
+                && fs[n].class() == "o.Small" && fs[n].method() == "x";
+            if ok {
+                rep.nontrivial += 1;
+            } else {
+                rep.fail(
+                    &format!("{}: a frame resolving to {} frames is not replaced by exactly those frames in the typed result", who, n),
+                    vec![format!("# mapping: class big with an inline group of {} entries `5:9:void inl<i>():<i> -> b`; typed trace `big: boom / at big.b(F.java:7) / at small.a(S.java:1)`", n)],
+                    format!("expected {} frames, got {}", n + 1, fs.len()),
+                );
+            }
+        }
+    }
     rep
 }
 
